@@ -1,6 +1,8 @@
 import OsacaVerif.Model.Pipeline
 import OsacaVerif.Lemmas.Pipeline
 import OsacaVerif.Props.C11
+import OsacaVerif.Model.Compose
+import OsacaVerif.Model.Isa
 /-
   C11 at the level of the numeric analysis — the composed pipeline `Pipeline.run`
   (selection ∘ dependency graph ∘ critical path ∘ loop-carried dependencies ∘ column sums).
@@ -103,6 +105,90 @@ theorem canon_lines (k : List PLine) : (canon k).map (·.num) = List.range k.len
   · simp [canon]
   · intro j h1 h2
     simp [canon, setNum, PLine.num]
+
+
+/-! ### 0. the composition uses the stage models as they are -/
+
+/-- the marker branch of `Pipeline.select` is C11's `reduceToSection` on the abstracted lines -/
+theorem select_markers_is_reduceToSection (file : List PLine) (isa : Txt) :
+    (match select (.markers isa) file with
+      | .ok k => Marker.Sel.ok (k.map (·.sel))
+      | .badIsa => .badIsa
+      | _ => .raised) = reduceToSection (file.map (·.sel)) isa := by
+  rw [select_markers]
+  unfold selectMarkers cfgOf reduceToSection
+  simp only
+  by_cases h1 : (if Gen.isaLowered = true then lower isa else isa) = Gen.x86IsaName
+  · simp only [h1, if_true]
+    rw [← selectWith_spec]
+    cases selectWith x86Cfg file <;> rfl
+  · by_cases h2 : (if Gen.isaLowered = true then lower isa else isa) = Gen.a64IsaName
+    · have hne : ¬ Gen.a64IsaName = Gen.x86IsaName := by decide
+      simp only [h2, hne, if_true, if_false]
+      rw [← selectWith_spec]
+      cases selectWith a64Cfg file <;> rfl
+    · simp only [h1, h2, if_false]
+
+/-- the `--lines` branch is C11's `getLineRange` and `selectLines` -/
+theorem select_lines_is_selectLines (file : List PLine) (spec : Txt) :
+    (match select (.lines spec) file with
+      | .ok k => some (k.map (·.sel))
+      | _ => none) = (getLineRange spec).map (fun r => selectLines r (file.map (·.sel))) := by
+  rw [select_lines]
+  cases getLineRange spec with
+  | none => rfl
+  | some r => simp only [Option.map_some]; rw [← selectRange_spec]
+
+/-- what the model stores on a line without mnemonic is what the models of `assign_tp_lt` (C08),
+    `assign_src_dst` and `get_reg_changes` (C03Roles) compute for it -/
+theorem noiseSem_is_stage_models (m : Compose.MModel) (i : Compose.Ins) (hi : i.mnemonic = none)
+    (isa : Operand.Isa) (db : List Isa.IsaEntry) (ops : List Isa.Opnd) (sem : Isa.Sem) (onlyPost : Bool) :
+    (∃ r, Compose.assignTpLt m i = .ok r ∧ r.tp = (noiseSem m.ports.length).tp ∧ r.lat = (noiseSem m.ports.length).lat ∧
+      some r.latWoLoad = (noiseSem m.ports.length).latWoLoad ∧ r.pressure = (noiseSem m.ports.length).pressure ∧
+      r.flags = (noiseSem m.ports.length).flags) ∧
+    (Isa.assignSrcDst isa db none ops).sem = {} ∧ (Isa.assignSrcDst isa db none ops).hasLd = (noiseSem 0).hasLd ∧
+    Isa.regChanges isa db none ops sem onlyPost = .ok [] := by
+  refine ⟨⟨Compose.nonInstruction m, ?_, rfl, rfl, rfl, rfl, rfl⟩, rfl, rfl, rfl⟩
+  unfold Compose.assignTpLt
+  rw [hi]
+
+/-- the entry the report model (C13) picks for the LCD column and the LCD total is the entry
+    `firstMaxDep` picks: `Report.lcdMembers` / `Report.lcdSumRepr` of the handed-over record are
+    `lcdMarks` / `lcdFigure` of the analysis -/
+theorem report_lcd_selection (repr : Rat → Txt) (ports : List Txt) (iu : Bool) (c : Pipeline.Cfg) (k : List PLine) :
+    Report.lcdMembers (toReport repr ports iu c.nports k (analyze c k)) =
+      (analyze c k).lcdMarks.map (fun p => (p.1, repr p.2)) ∧
+    ((analyze c k).lcdDict ≠ [] →
+      Report.lcdSumRepr (toReport repr ports iu c.nports k (analyze c k)) = repr (analyze c k).lcdFigure) := by
+  have key : ∀ (d : List (List Nat × LcdPost.Entry)) (g : List Nat × LcdPost.Entry → Report.Dep)
+      (hg : ∀ x, (g x).lat = x.2.1), Report.firstMax (d.map g) = (firstMaxDep d).map g := by
+    intro d g hg
+    cases d with
+    | nil => rfl
+    | cons x xs =>
+      simp only [List.map_cons, Report.firstMax, firstMaxDep, Option.map_some, Option.some.injEq]
+      induction xs generalizing x with
+      | nil => rfl
+      | cons y ys ih =>
+        simp only [List.map_cons, List.foldl_cons, hg]
+        split
+        · exact ih y
+        · exact ih x
+  unfold Report.lcdMembers Report.lcdSumRepr toReport
+  simp only
+  rw [key _ _ (fun _ => rfl)]
+  show _ ∧ ((analyze c k).lcdDict ≠ [] → _)
+  have hfig : (analyze c k).lcdFigure = match firstMaxDep (analyze c k).lcdDict with | some d => d.2.1 | none => 0 := rfl
+  have hmarks : (analyze c k).lcdMarks = match firstMaxDep (analyze c k).lcdDict with | some d => d.2.2 | none => [] := rfl
+  rw [hfig, hmarks]
+  cases h : firstMaxDep (analyze c k).lcdDict with
+  | none =>
+    refine ⟨rfl, ?_⟩
+    intro hne
+    cases hd : (analyze c k).lcdDict with
+    | nil => exact absurd hd hne
+    | cons x xs => rw [hd] at h; simp [firstMaxDep] at h
+  | some d => exact ⟨rfl, fun _ => rfl⟩
 
 /-! ### 1. renumbering -/
 
